@@ -7,8 +7,8 @@
 //@ region arcasfd_axiom props=C03
 /// ASSUMED: the descriptor of the newtype wrapper is the descriptor of what it wraps
 #[verifier::external_body]
-proof fn axiom_arcasfd_fd(a: &ArcAsFd)
-    ensures crate::ext::fd_raw(a) == crate::ext::fd_raw(&a.0),
+broadcast proof fn axiom_arcasfd_fd(a: &ArcAsFd)
+    ensures #[trigger] crate::ext::fd_raw(a) == crate::ext::fd_raw(&a.0),
 {}
 //@ endregion
 //@ open src/sources/ping/eventfd.rs / impl AsFd for ArcAsFd
